@@ -267,13 +267,19 @@ def fam_partitioning_index(ctx):
         "Int64": pd.DataFrame({"k": pd.array(vals, dtype="Int64")}),
         "float32": pd.DataFrame({"k": np.array(vals, dtype="float32")}),
     }
+    # the same key values held as a NAMED INDEX (shuffle on the index name: the index is copied into a
+    # helper column first; the float64 cast has to cover that column too — seeded change C12-m4)
+    for dt in ("int64", "int32", "float64", "float32"):
+        frames["index:" + dt] = pd.DataFrame({"pay": np.arange(len(vals))}, index=pd.Index(np.array(vals, dtype=dt), name="k"))
     for nout in ([3, 7] if ctx.quick else [2, 3, 4, 5, 7, 8, 13]):
         ref = None
         for dt, pdf in frames.items():
-            df = dx.from_pandas(pdf, npartitions=2)
+            df = dx.from_pandas(pdf, npartitions=2, sort=False)
             low = RearrangeByColumn(df.expr, ["k"], nout, False, "tasks", None, None)._lower()
             api = list(low.find_operations(AssignPartitioningIndex))[0]
-            got = dx.new_collection(api).compute().sort_index()["_partitions"].tolist()
+            out = dx.new_collection(api).compute()
+            keys = out["k"] if "k" in out.columns else out.index
+            got = sorted({(int(k), int(p)) for k, p in zip(keys, out["_partitions"])})
             if ref is None:
                 ref = got
             f.compare([{"dtype": dt, "nout": nout}], [got], [ref])
@@ -394,6 +400,18 @@ def _cross_frame_case(case):
                 kvc = int(kv)
                 if where.setdefault(kvc, pi) != pi:
                     return f"key {kvc} is in partition {where[kvc]} in one frame and {pi} in the {dt} frame"
+    # … and held as a named index that is shuffled by its name
+    for dt in ("int64", "float64"):
+        pdf = pd.DataFrame({"pay": np.arange(30)}, index=pd.Index(vals.astype(dt), name="k"))
+        df = dx.from_pandas(pdf, npartitions=case["nin"], sort=False)
+        kw = {"max_branch": mb} if mb else {}
+        s = df.shuffle("k", npartitions=nout, shuffle_method=method, **kw)
+        parts = e2e.compute_partitions(s)
+        for pi, part in enumerate(parts):
+            for kv in part.index:
+                kvc = int(kv)
+                if where.setdefault(kvc, pi) != pi:
+                    return f"key {kvc} is in partition {where[kvc]} in one frame and {pi} in the frame indexed by {dt} k"
     return None
 
 
